@@ -84,9 +84,15 @@ def check(ctx):
             lhs = show(unmut(N.term(n["l"])))
             ok = lhs.startswith("slice::last_mut(") and lhs.endswith(".ty.path.segments)@v1::Some.0")
             ctx.expect(ok, "C04.1", "frame/assign", site(n), "the only assignment is `*segments.last_mut() = new_name`", "assignment to `%s`" % lhs[:200])
+        elif kind == "mutcall:String::push_str":
+            # appending to the last segment in place is the same write as assigning `old + suffix` to it
+            lhs = show(unmut(N.term(n["recv"])))
+            ok = lhs.startswith("slice::last_mut(") and lhs.endswith(".ty.path.segments)@v1::Some.0")
+            ctx.expect(ok, "C04.1", "frame/assign", site(n), "the only write is to `*segments.last_mut()`", "push_str on `%s`" % lhs[:200])
         else:
             ctx.bad("C04.1", "frame/other/" + kind, site(n), "the registry is modified through `%s` on `%s`: outside the frame (only the last path segment may change)" % (kind, where))
-    ctx.expect(sum(1 for w in writes if w[0] == "assign") == 1, "C04.1", "frame/one-assignment", fn["sp"], "exactly one assignment through the registry", "assignments: %s" % kinds)
+    ctx.expect(sum(1 for w in writes if w[0] in ("assign", "mutcall:String::push_str")) == 1, "C04.1", "frame/one-assignment", fn["sp"],
+               "exactly one write through the registry (the new last segment)", "writes: %s" % kinds)
     # ---- C04.2 minimality
     sites = [s for s in k8.hash_sites(P, ("scale_typegen",)) if s.fn["path"] == fn["path"] and s.callee == "HashMap::into_values"]
     if len(sites) != 1:
@@ -142,6 +148,17 @@ def check(ctx):
         ok = rhs[0] == "fmt" and [p[0] for p in rhs[1]] == ["arg", "arg"] and show(unmut(rhs[1][0][2])) in (lhs_place, "<self>") and rhs[1][1][2][0] == "mut"
         ctx.expect(ok, "C04.3", "numbering/new-name", site(n), "new name = old last segment immediately followed by the counter: format!(\"{name}{n}\")",
                    "new name term: %s" % show(rhs)[:300])
+    app = [w for w in writes if w[0] == "mutcall:String::push_str"]
+    if app and not asg:
+        n = app[0][2]
+        arg = N.term(n["args"][0])
+        while arg[0] == "call" and len(arg[2]) == 1 and arg[1] in ("ToString::to_string", "String::as_str", "AsRef::as_ref"):
+            arg = arg[2][0]
+        ok = arg[0] == "mut" and arg[2] == ("lit", "1")
+        ctx.expect(ok, "C04.3", "numbering/new-name", site(n), "new name = old last segment with the counter appended in place",
+                   "appended text: %s" % show(arg)[:300])
+    if not asg and not app:
+        ctx.bad("C04.3", "numbering/new-name", fn["sp"], "the statement that writes the new name was not found")
     with ctx.only(lambda k: k in ("grouping", "grouping-key")):       # families are formed by the full path: only types that share a path are ever renamed
         c03.grouping(ctx)
     # C04.7: `instantiations of one generic definition still share one path` and `only types that shared a path with a DIFFERENTLY shaped
@@ -154,8 +171,8 @@ def check(ctx):
     ft = show(N.term(first["e"])) if first.get("k") in ("SSemi", "SExpr") else "?"
     ctx.expect(ft == "utils::sanity_pass(P%d)?" % i_reg, "C04.5", "sanity-first", fn["sp"], "sanity_pass(types)? is the first statement", "first statement: " + ft[:120])
     # ---- C04.6 freshness
-    if asg:
-        n = asg[0][2]
+    if asg or app:
+        n = (asg or app)[0][2]
         conds = GD.cond_strings(GD.dominating(N, fn["body"], n))
         fresh = [c for c in conds if ("contains" in c or "registry_contains_type_path" in c or "HashSet::insert" in c or "any(" in c) and "path" in c]
         ctx.expect(bool(fresh), "C04.6", "freshness/rename-without-freshness-check", site(n),
